@@ -393,7 +393,24 @@ def run_property(prop, tier='quick', tree=None, quiet=False):
     try:
         mod = importlib.import_module('amverif.rules.%s' % prop.lower())
         with _watchdog(int(os.environ.get('AMVERIF_TIMEOUT', '1500'))):
-            mod.run(ctx)
+            err = None
+            try:
+                mod.run(ctx)
+            except AnalysisError as e:
+                err = e
+            # every repository module the rules consulted is also read against the installed third-party libraries (keywords, attributes, changed semantics)
+            from . import apicompat
+            for rel in sorted(ctx.tree.consulted):
+                if not rel.endswith('.py'):
+                    continue
+                try:
+                    issues, stats = apicompat.scan(ctx.mod(rel))
+                except AnalysisError:
+                    continue
+                ctx.ob('API-COMPAT', rel, 'third-party calls in this module exist with these keywords and this meaning in the installed numpy / pandas / scipy (%d calls resolved)' % stats['calls_resolved'],
+                       not issues, '; '.join(i.what for i in issues)[:400], node=issues[0].node if issues else None, file=rel, key='api generic ' + rel)
+            if err is not None:
+                raise err
         if not ctx.obs:
             raise AnalysisError('no obligations were generated')
         return ctx, None
